@@ -11,7 +11,7 @@ use std::collections::BTreeMap;
 pub struct C10;
 
 /// static prose corpus: (element kind, text). None of it is executable Mech code.
-const PROSE: [(&str, &str); 40] = [
+const PROSE: [(&str, &str); 45] = [
   ("paragraph", "This is a paragraph of ordinary prose that explains what follows."),
   ("paragraph", "Prose may mention names like x and y, numbers like 42, and punctuation: commas, semicolons; even (parentheses)."),
   ("paragraph", "A longer paragraph\nthat continues on a second line and a third\nline before it ends."),
@@ -41,6 +41,11 @@ const PROSE: [(&str, &str); 40] = [
   ("disabled-fence", "```mech:disabled\n~v2 := [9 9 9]\nv2[1] = 0\n```"),
   ("comment", "-- a line comment"),
   ("comment", "// another line comment"),
+  ("comment-with-code", "-- reset it; a = 9"),
+  ("comment-with-code", "// a note; v1 = 9; v2 += 1"),
+  ("comment-with-code", "-- a = 9"),
+  ("paragraph", "Prose that ends in something like an assignment after a semicolon; a = 9"),
+  ("plain-fence", "```\n-- inside a fence; a = 9\n```"),
   ("info-block", "(i)> An informational callout."),
   ("warning-block", "(!)> A warning callout."),
   ("question-block", "(?)> A question callout."),
